@@ -95,6 +95,18 @@ func mapPath(p string, nm map[string]string) string {
 	return strings.Join(parts, "/")
 }
 
+func concreteSize(abstract int) int {
+	switch {
+	case abstract <= 0:
+		return 0
+	case abstract < 5:
+		return 10 * abstract
+	case abstract == 5:
+		return 100
+	}
+	return 100 + (abstract - 5)
+}
+
 type swSession struct {
 	mu          sync.Mutex
 	calls       map[string]int // "root|ex|path"
@@ -280,7 +292,9 @@ func runScanWalk(c *swCase, mode, nmName, tmp string, faultKind int) (obs swObs)
 		if path.Base(p) == ".gitignore" {
 			return []byte(gitext(gi))
 		}
-		return []byte(strings.Repeat("x", size))
+		// abstract sizes 2 / 5 (= limit) / 6 are rendered as 20 / 100 / 101 bytes so that a .gitignore file
+		// (a few dozen bytes) is below the limit like any small file
+		return []byte(strings.Repeat("x", concreteSize(size)))
 	}
 	var roots []*scalibrfs.ScanRoot
 	realBase := ""
@@ -379,7 +393,7 @@ func runScanWalk(c *swCase, mode, nmName, tmp string, faultKind int) (obs swObs)
 		ScanRoots:            roots,
 		UseGitignore:         c.Cfg.UseGit,
 		IgnoreSubDirs:        c.Cfg.IgnoreSub,
-		MaxFileSize:          c.Cfg.MaxFileSize,
+		MaxFileSize:          concreteSize(c.Cfg.MaxFileSize),
 		ReadSymlinks:         c.Cfg.ReadLinks,
 		MaxInodes:            c.Cfg.MaxInodes,
 		ErrorOnFSErrors:      c.Cfg.Fatal,
@@ -522,7 +536,7 @@ func init() {
 					nmName = parts[1]
 				}
 				m := parts[0]
-				if m == "real" && (len(c.Cfg.Faults) > 0 || c.Cfg.Perm > 1 || idx%every != 0) {
+				if m == "real" && (len(c.Cfg.Faults) > 0 || c.Cfg.Perm > 1 || c.Cfg.MaxInodes > 0 || c.Cfg.Cancel.Kind != "none" || idx%every != 0) {
 					continue // faults and listing orders cannot be imposed on a real directory
 				}
 				if m == "fallback" {
